@@ -7,15 +7,27 @@ package rtcp
 // parameters of the function under a `bounded` contract, receiver first. Case i of seed s is reproducible: the
 // harness seeds rng with s*1000003+i.
 //
-// Bounds: at most 5 report blocks per extended report, lists of at most 9 elements, buffers of at most 96 random
-// octets; every scalar field is drawn from its whole range, with the extremes favoured.
+// Bounds (quick tier; multiplied by 4 in the thorough tier): at most 5 report blocks per extended report, lists of
+// at most 9 elements, buffers of at most 96 random octets, 59 TWCC statuses, 5 packets per list; every scalar field
+// is drawn from its whole range, with the extremes favoured.
 
 import (
 	"fmt"
 	"math/rand"
+	"os"
 	"reflect"
+	"strconv"
 	"strings"
 )
+
+// govcScale widens the size bounds (list lengths, block counts, buffer sizes); 1 in the quick tier, 4 in the
+// thorough tier (GOVC_BOUNDED_SCALE).
+var govcScale = func() int {
+	if v, err := strconv.Atoi(os.Getenv("GOVC_BOUNDED_SCALE")); err == nil && v >= 1 {
+		return v
+	}
+	return 1
+}()
 
 func govcU32(r *rand.Rand) uint32 {
 	switch r.Intn(6) {
@@ -39,7 +51,7 @@ func govcLen(r *rand.Rand) int {
 	case 1:
 		return 1 + r.Intn(2)
 	}
-	return r.Intn(10)
+	return r.Intn(10 * govcScale)
 }
 
 // govcBlock: a report block of kind k (0..7) with arbitrary field values; the XRHeader is arbitrary too, as it is
@@ -106,7 +118,7 @@ func govcBlock(r *rand.Rand, k int) ReportBlock {
 
 func govcXR(r *rand.Rand, i int) ExtendedReport {
 	x := ExtendedReport{SenderSSRC: govcU32(r)}
-	n := r.Intn(6)
+	n := r.Intn(6 * govcScale)
 	if i < 8 {
 		// the first cases: one block of each kind
 		x.Reports = []ReportBlock{govcBlock(r, i)}
@@ -192,7 +204,7 @@ func genRead(r *rand.Rand, i int) (*packetBuffer, interface{}) {
 	n := fixed + elem*govcLen(r)
 	switch r.Intn(4) {
 	case 0:
-		n = r.Intn(97)
+		n = r.Intn(97 * govcScale)
 	case 1:
 		n += r.Intn(5)
 	}
@@ -305,7 +317,7 @@ func govcTWCCSymbols(r *rand.Rand) govcTWCCCase {
 	case 2:
 		n = 14 * (1 + r.Intn(3))
 	default:
-		n = r.Intn(60)
+		n = r.Intn(60 * govcScale)
 	}
 	style := r.Intn(4)
 	for i := 0; i < n; {
@@ -719,7 +731,7 @@ func genPacketList(r *rand.Rand, i int) []Packet {
 		return []Packet{govcPacket(r, i)}
 	}
 	var ps []Packet
-	for n := 1 + r.Intn(5); n > 0; n-- {
+	for n := 1 + r.Intn(5*govcScale); n > 0; n-- {
 		ps = append(ps, govcPacket(r, r.Intn(15)))
 	}
 	return ps
